@@ -490,7 +490,9 @@ theorem skel_copyBackOne (c : Ctx) (e : Expr) (av : Val) : (copyBackOne c e av).
   cases e <;> simp
   · split
     · simp
-    · split <;> simp
+    · split
+      · rfl
+      · split <;> simp
 
 theorem skel_copyBack (c : Ctx) (bs : List Bool) (es : List Expr) (i : Nat) : (copyBack c bs es i).2.skel = c.skel := by
   induction bs generalizing c es i with
